@@ -2,6 +2,7 @@ package c10
 
 import (
 	"fmt"
+	"strings"
 
 	"verifharness/internal/fed"
 	"verifharness/internal/gen"
@@ -40,7 +41,13 @@ type riskFacts struct {
 	// `search { ... on Node { … } }` with search: [SearchResult union]) and is deferred, inside a
 	// defer, or contains one
 	AbstractInAbstractWithDefer bool
-	LabelsUnique                bool
+	// an active @defer nested in another active @defer is mounted outside the place where the
+	// enclosing defer's own fields sit: the enclosing defer's fields (those not merged into a copy
+	// selected outside of it) all lie below some object P, the nested defer's fields do not lie
+	// below P (e.g. `x { id } ... @defer { x { name } ... @defer { y } }`: the outer defer is
+	// announced at x, the inner one at the root)
+	NestedDeferOutsideParentMount bool
+	LabelsUnique                  bool
 }
 
 func (f riskFacts) any() bool {
@@ -56,6 +63,7 @@ func (f riskFacts) addTo(m map[string]string) {
 	m["deferred_requires_field"] = fmt.Sprint(f.DeferredRequires)
 	m["defer_below_list_below_narrowed_field"] = fmt.Sprint(f.ListBelowNarrowedField)
 	m["abstract_fragment_in_other_abstract_parent_with_defer"] = fmt.Sprint(f.AbstractInAbstractWithDefer)
+	m["nested_defer_mounted_outside_parent_defers_fields"] = fmt.Sprint(f.NestedDeferOutsideParentMount)
 }
 
 type ancestor struct {
@@ -65,16 +73,18 @@ type ancestor struct {
 }
 
 type riskWalker struct {
-	s       *gen.Schema
-	l       *fed.Layout
-	doc     *gen.Doc
-	vars    map[string]any
-	facts   riskFacts
-	scopeN  int
-	occ     map[string]map[int]bool
-	isLeaf  map[string]bool
-	labels  map[string]int
-	seenDir map[*gen.Dir]bool
+	s           *gen.Schema
+	l           *fed.Layout
+	doc         *gen.Doc
+	vars        map[string]any
+	facts       riskFacts
+	scopeN      int
+	scopeParent map[int]int
+	scopeOcc    map[int][][2]string // per scope: (position, key) of its field occurrences
+	occ         map[string]map[int]bool
+	isLeaf      map[string]bool
+	labels      map[string]int
+	seenDir     map[*gen.Dir]bool
 }
 
 func (w *riskWalker) boolArg(v *gen.Val) (bool, bool) {
@@ -203,6 +213,7 @@ func (w *riskWalker) walk(sels []*gen.Sel, parent string, possible []string, sco
 		if isDefer {
 			w.scopeN++
 			sc = w.scopeN
+			w.scopeParent[sc] = scope
 			contains = true
 			if w.narrowedListMiss(chain) {
 				w.facts.ListBelowNarrowedField = true
@@ -231,6 +242,7 @@ func (w *riskWalker) walk(sels []*gen.Sel, parent string, possible []string, sco
 				w.occ[key] = map[int]bool{}
 			}
 			w.occ[key][scope] = true
+			w.scopeOcc[scope] = append(w.scopeOcc[scope], [2]string{pos, key})
 			if len(f.Sel) == 0 && f.Name != "__typename" {
 				w.isLeaf[key] = true
 			}
@@ -264,7 +276,7 @@ func (w *riskWalker) walk(sels []*gen.Sel, parent string, possible []string, sco
 }
 
 func analyseRisk(l *fed.Layout, doc *gen.Doc, vars map[string]any) riskFacts {
-	w := &riskWalker{s: l.Super, l: l, doc: doc, vars: vars, occ: map[string]map[int]bool{}, isLeaf: map[string]bool{}, seenDir: map[*gen.Dir]bool{}, labels: map[string]int{}}
+	w := &riskWalker{s: l.Super, l: l, doc: doc, vars: vars, scopeParent: map[int]int{}, scopeOcc: map[int][][2]string{}, occ: map[string]map[int]bool{}, isLeaf: map[string]bool{}, seenDir: map[*gen.Dir]bool{}, labels: map[string]int{}}
 	w.walk(doc.Ops[0].Sel, l.Super.Query, []string{l.Super.Query}, 0, "", nil, false, map[string]bool{})
 	hasOwn := map[int]bool{}
 	for key, scopes := range w.occ {
@@ -299,6 +311,62 @@ func analyseRisk(l *fed.Layout, doc *gen.Doc, vars map[string]any) riskFacts {
 	for sc := 1; sc <= w.scopeN; sc++ {
 		if !hasOwn[sc] {
 			w.facts.DeferWithoutOwnFields = true
+		}
+	}
+	// where each defer is mounted: common prefix of the positions of its own field occurrences (an
+	// occurrence also selected outside every defer or in an enclosing defer belongs to that scope)
+	isAncestor := func(a, d int) bool {
+		for x := w.scopeParent[d]; ; x = w.scopeParent[x] {
+			if x == a {
+				return true
+			}
+			if x == 0 {
+				return false
+			}
+		}
+	}
+	mount := map[int][]string{}
+	for sc := 1; sc <= w.scopeN; sc++ {
+		var path []string
+		first := true
+		for _, pk := range w.scopeOcc[sc] {
+			owned := !isTypenameKey(pk[1]) // __typename follows its object, not the defer it is written in
+			for other := range w.occ[pk[1]] {
+				if other != sc && (other == 0 || isAncestor(other, sc)) {
+					owned = false
+				}
+			}
+			if !owned {
+				continue
+			}
+			segs := strings.Split(strings.TrimPrefix(pk[0], "/"), "/")
+			if pk[0] == "" {
+				segs = nil
+			}
+			if first {
+				path, first = segs, false
+				continue
+			}
+			n := 0
+			for n < len(path) && n < len(segs) && path[n] == segs[n] {
+				n++
+			}
+			path = path[:n]
+		}
+		if !first {
+			mount[sc] = path
+		}
+	}
+	for sc, path := range mount {
+		for a := w.scopeParent[sc]; a != 0; a = w.scopeParent[a] {
+			ap, ok := mount[a]
+			if !ok {
+				continue
+			}
+			if len(path) < len(ap) || strings.Join(path[:len(ap)], "/") != strings.Join(ap, "/") {
+				w.facts.NestedDeferOutsideParentMount = true
+			}
+			break
 		}
 	}
 	w.facts.LabelsUnique = true
